@@ -435,14 +435,18 @@ type parReq struct {
 	Rounds int         `json:"rounds"`
 }
 type parRep struct {
-	Bad string `json:"bad"`
+	Bad  string `json:"bad"`
+	Note string `json:"note,omitempty"` // counters of the request for the parent's histogram ("name=n name=n")
 }
+
+var lastChildNote string
 
 // childMain: `c02 -child` — one request per line on stdin, one reply per line on stdout, until EOF.
 func childMain() {
 	script.DBG_ERR = false
 	in := bufio.NewReaderSize(os.Stdin, 1<<20)
 	out := bufio.NewWriter(os.Stdout)
+	os.Stdout = os.Stderr // the reply channel is ours alone: whatever the client packages print goes to the crash-report side
 	for {
 		line, err := in.ReadBytes('\n')
 		if len(bytes.TrimSpace(line)) > 0 {
@@ -468,17 +472,21 @@ func childMain() {
 				fmt.Fprintln(os.Stderr, "c02 -child: bad request")
 				os.Exit(4)
 			}
-			var res string
+			var res, note string
 			if q.Canary {
 				raceCanary()
 			} else if len(q.Group) > 0 {
 				res = runDigestsParallel(q.Group, q.Rounds)
 			} else if q.Node != nil {
 				res = runNodeChild(q.Node, q.Rounds)
+				if res == "" {
+					res = runPoolChild(q.Node, q.Rounds)
+					note = fmt.Sprintf("submitted=%d variants=%d variants-failing=%d pool-inputs=%d", poolNote.submitted, poolNote.variants, poolNote.variantsBad, poolNote.mem)
+				}
 			} else {
 				res = runSpendsParallel(q.Multis, q.Rounds)
 			}
-			b, _ := json.Marshal(parRep{res})
+			b, _ := json.Marshal(parRep{res, note})
 			out.Write(b)
 			out.WriteByte('\n')
 			out.Flush()
@@ -590,6 +598,7 @@ func askChild(q *parReq) (bad, crash string) {
 	if !hung && x.err == nil {
 		var rep parRep
 		if json.Unmarshal(x.line, &rep) == nil {
+			lastChildNote = rep.Note
 			return rep.Bad, ""
 		}
 	}
@@ -845,7 +854,8 @@ func main() {
 	//     object and with one goroutine per input
 	multiStreams(g)
 	lap("4c-multi-input-multi-check")
-	// 4c'. whole blocks through the node's own caller of the digest functions (Chain.ProcessBlockTransactions)
+	// 4c'. whole blocks through the node's own caller of the digest functions (Chain.ProcessBlockTransactions),
+	//      then their transactions through the mempool's caller (txpool.HandleNetTx, pool.go)
 	nodeStreams(g)
 	lap("4c2-blocks-through-commitTxs")
 	secs["4c2-of-which-in-the-node"] = float64(int(nodeChildSecs*10)) / 10
@@ -872,7 +882,7 @@ func main() {
 	r.Extra["oracle_requests"] = o.N
 	r.Extra["parallel_child_processes_started"] = parChildrenStarted
 	r.Finish("corpus (sighash.json, external BIP143 examples, boundary transactions, F1 witness), then random transactions (0..n inputs/outputs, CompactSize boundaries 252/253, random version/locktime/sequence) with a hash-type sweep per transaction (all 256 byte values in thorough, edge set + random in quick, 4-byte types for legacy/BIP143) for the three algorithms on ONE object, call-order permutations and parallel callers on one object and on several transaction objects at the same time; whole transactions with 1..8 really spent inputs out of 1..2500 (bare/P2SH/P2WSH/P2SH-P2WSH scripts and tapscripts with 1..4 CHECKSIG / CHECKMULTISIG / CHECKSIGADD checks, executed and unexecuted code separators between them, P2PKH/P2WPKH/key path) verified sequentially on one object and by one goroutine per input; whole blocks (1..3 transactions after a coinbase, 2..2500 inputs, every input verifiable: signed spends of all kinds next to anyone-can-spend inputs, or every input signed; funded by UTXO records of 1..64 outputs or by outputs of an earlier transaction of the block; one block in four with one signature over another digest) through the node's own caller Chain.ProcessBlockTransactions, 12..24 rounds on fresh transaction objects with three start disciplines of the node's workers; interleavings of storing the next spent output and digest requests on one object (the code's order, overlapping but safe, arbitrary); histories over 2..5 transaction objects (AllocVerVars with Spent_outputs assigned or appended / digest requests or whole spends / Clean / re-allocation, interleaved; the real code runs a whole history in one goroutine without I/O in between); Tx.Sign / Tx.SignWitness on every defined hash type and sign-extension edge bytes; the first concurrent requests again in a race-detector build; a case is distinct by (algorithm, input, hash type, hash of transaction+script) and non-trivial when the input index is in range",
-		"Every digest of the real code is compared with an independent reference (ref.go) and with the Lean model; the model's preimage with the reference preimage; results on a shared object with results on a fresh object; undefined taproot cases are attacked with a real BIP340 signature over the digest handed out; after every taproot digest request the real CheckSchnorrSignature (same object) is compared with the model's plan for signatures of eight shapes (good, one bit off, foreign, 63/66/0 bytes, explicit 0x00), the model's annex hash with the reference; end-to-end taproot verdicts with the model's verdict derived from its own annex hash; a recovered panic of VerifyTxScript is a failure, not 'invalid'; end-to-end spends (P2PKH/bare with code separators and embedded signatures - including pre-BIP66 spends whose script code embeds its own lax-DER padded signature as a push of 75/76/77/…/255/256 bytes -, P2WPKH/P2WSH, taproot key and script path with annex) are signed by the independent signer over the reference digest and must verify, and must not verify over any other digest; the real delSig (verif hook) is compared with the reference FindAndDelete and the model at every push-opcode boundary; scripts with several signature checks are signed per check with the script code / separator position of THAT check (and, on purpose, with another check's) and must verify exactly when every signature is over its own reference digest; in histories over several transaction objects every digest / verdict must equal the one of a fresh object of the same transaction and the reference, and the Lean life-cycle model (lifeStep) is run through the same history; a block handed to Chain.ProcessBlockTransactions must be accepted exactly when every signature is over its own reference digest (else rejected for its scripts), and every spend must verify again on the transaction objects the node left behind; on one object whose Spent_outputs is filled entry by entry the model answers every request as the code does (panic on a nil entry, later answers from the half-filled cache included) and, as long as every request read stored entries only, each result equals the fresh-object result and the reference; concurrent callers (several on one transaction object; several transaction objects at once; one goroutine per spent input through script.VerifyTxScript, fresh object per round, three start disciplines) run in a child process so that a crash, a hang, a wrong digest or a wrong verdict under concurrency is a reported failure with the transactions and call lists at hand.")
+		"Every digest of the real code is compared with an independent reference (ref.go) and with the Lean model; the model's preimage with the reference preimage; results on a shared object with results on a fresh object; undefined taproot cases are attacked with a real BIP340 signature over the digest handed out; after every taproot digest request the real CheckSchnorrSignature (same object) is compared with the model's plan for signatures of eight shapes (good, one bit off, foreign, 63/66/0 bytes, explicit 0x00), the model's annex hash with the reference; end-to-end taproot verdicts with the model's verdict derived from its own annex hash; a recovered panic of VerifyTxScript is a failure, not 'invalid'; end-to-end spends (P2PKH/bare with code separators and embedded signatures - including pre-BIP66 spends whose script code embeds its own lax-DER padded signature as a push of 75/76/77/…/255/256 bytes -, P2WPKH/P2WSH, taproot key and script path with annex) are signed by the independent signer over the reference digest and must verify, and must not verify over any other digest; the real delSig (verif hook) is compared with the reference FindAndDelete and the model at every push-opcode boundary; scripts with several signature checks are signed per check with the script code / separator position of THAT check (and, on purpose, with another check's) and must verify exactly when every signature is over its own reference digest; in histories over several transaction objects every digest / verdict must equal the one of a fresh object of the same transaction and the reference, and the Lean life-cycle model (lifeStep) is run through the same history; a block handed to Chain.ProcessBlockTransactions must be accepted exactly when every signature is over its own reference digest (else rejected for its scripts), and every spend must verify again on the transaction objects the node left behind; the same transactions (and copies with one bit of a scriptSig / witness item flipped) handed to the mempool's caller txpool.HandleNetTx must be accepted exactly when every input verifies against its own digest, on one OS thread and on all; on one object whose Spent_outputs is filled entry by entry the model answers every request as the code does (panic on a nil entry, later answers from the half-filled cache included) and, as long as every request read stored entries only, each result equals the fresh-object result and the reference; concurrent callers (several on one transaction object; several transaction objects at once; one goroutine per spent input through script.VerifyTxScript, fresh object per round, three start disciplines) run in a child process so that a crash, a hang, a wrong digest or a wrong verdict under concurrency is a reported failure with the transactions and call lists at hand.")
 }
 
 func mustBigHex(s string) []byte { return unhx(s) }
